@@ -31,6 +31,18 @@ theorem addReq_good {s : State} {n : Nat} {p : PodObj} {q : Quota} (h : Good s) 
 
 def gGhost (o : PodObj) (p : Pod) : Pod := { p with req := o.req, np := o.np }
 
+theorem w_true (e : Pod) : w (fun _ => true) e = e.req := by simp [w]
+
+theorem w_np {e : Pod} {o : PodObj} (h1 : e.req = o.req) (h2 : e.np = o.np) :
+    w (fun p => p.np) e = npOf (some o) := by simp [w, npOf, h1, h2]
+
+theorem w_asg {e : Pod} {o : PodObj} (h1 : e.req = o.req) :
+    w (fun p => p.assigned) e = if e.assigned = true then o.req else 0 := by simp [w, h1]
+
+theorem w_asgnp {e : Pod} {o : PodObj} (h1 : e.req = o.req) (h2 : e.np = o.np) :
+    w (fun p => p.assigned && p.np) e = if e.assigned = true then npOf (some o) else 0 := by
+  cases ha : e.assigned <;> simp [w, npOf, h1, h2, ha]
+
 theorem setGhost_eq {s : State} {n : Nat} {q : Quota} (hq : get? s n = some q) (o : PodObj) :
     setGhost s n o = set s { q with pods := updPods (gGhost o) o.id q.pods } := by
   simp [setGhost, hq, updPods, gGhost]
@@ -62,11 +74,22 @@ theorem update_same_exists {s : State} {n : Nat} {np op : PodObj} {q : Quota} {e
   have g3 := podSum_ge_w (fun p => p.assigned) hpn hmem
   have g4 := podSum_ge_w (fun p => p.assigned && p.np) hpn hmem
   have hnpnn : 0 ≤ npOf (some np) := by simp only [npOf]; split <;> omega
-  have hA := updPodReq_mid (some op) (some np) hm hq hmax (by
-    simp only [w, if_true, hreq, hnp] at g1 g2
-    simp only [reqOf, npOf] at hnpnn ⊢; constructor
-    · omega
-    · split at g2 <;> simp_all <;> omega)
+  have W1 := w_true e
+  have W2 := w_np hreq hnp
+  have W3 := w_asg (e := e) hreq
+  have W4 := w_asgnp hreq hnp
+  have G0 : (gGhost np e).req = np.req := rfl
+  have G2 : w (fun p => p.np) (gGhost np e) = npOf (some np) := w_np rfl rfl
+  have G3 : w (fun p => p.assigned) (gGhost np e) = if e.assigned = true then np.req else 0 := w_asg (o := np) rfl
+  have G4 : w (fun p => p.assigned && p.np) (gGhost np e) = if e.assigned = true then npOf (some np) else 0 :=
+    w_asgnp (o := np) rfl rfl
+  have R1 : reqOf (some np) = np.req := rfl
+  have R2 : reqOf (some op) = op.req := rfl
+  rw [W1, hreq] at g1
+  rw [W2] at g2
+  rw [W3] at g3
+  rw [W4] at g4
+  have hA := updPodReq_mid (some op) (some np) hm hq hmax (by rw [R1, R2]; constructor <;> omega)
   obtain ⟨qA, hqA, hpodsA, hmaxA, hsuA, hsnuA⟩ := updPodReq_view n (some op) (some np) hq
   have heA : getPod qA.pods np.id = some e := by rw [hpodsA]; exact he
   have hg : ∀ x, (gGhost np x).id = x.id := fun _ => rfl
@@ -81,31 +104,25 @@ theorem update_same_exists {s : State} {n : Nat} {np op : PodObj} {q : Quota} {e
   have hasgB : assignedIn (setGhost (updPodReq s n (some op) (some np)) n np) n np.id = e.assigned := by
     rw [assignedIn_eq hqB hndB, heB]; rfl
   simp only [hasgB]
+  rw [G0, G2, G3, G4, W2, W3, W4, hreq, R1, R2] at hB
   cases hasg : e.assigned with
   | true =>
     simp only [if_true]
+    simp only [hasg, if_true] at g3 g4 hB
     have hpaB : podAssigned { qA with pods := updPods (gGhost np) np.id qA.pods } np.id = true := by
       rw [podAssigned_eq _ _ hndB, heB]; exact hasg
     have hC := updPodUsed_mid (id := np.id) (some op) (some np) hB hqB (by simpa [hmaxA] using hmax)
       (by simp [hpaB]) (by
-        simp only [w, hasg, if_true, Bool.true_and, hreq, hnp] at g3 g4
-        simp only [reqOf, npOf, hsuA, hsnuA] at hnpnn ⊢; constructor
-        · omega
-        · split at g4 <;> simp_all <;> omega)
+        show 0 ≤ qA.selfUsed + _ ∧ 0 ≤ qA.selfNpUsed + _
+        rw [hsuA, hsnuA, R1, R2]; constructor <;> omega)
+    rw [R1, R2] at hC
     apply mid_switch (n := n)
-    refine mid_cast hC ?_ ?_ ?_ ?_
-    · simp [reqOf, gGhost, hreq]; omega
-    · simp only [npOf, w, gGhost, hnp, hreq]; split <;> split <;> simp <;> omega
-    · simp [w, gGhost, hasg, reqOf, hreq]; omega
-    · simp only [npOf, w, gGhost, hasg, hnp, hreq, Bool.true_and]; split <;> split <;> simp <;> omega
+    exact mid_cast hC (by omega) (by omega) (by omega) (by omega)
   | false =>
+    simp only [hasg, Bool.false_eq_true, if_false] at hB
     have hgB : Good (setGhost (updPodReq s n (some op) (some np)) n np) := by
       apply mid_switch (n := n)
-      refine mid_cast hB ?_ ?_ ?_ ?_
-      · simp [reqOf, gGhost, hreq]; omega
-      · simp only [npOf, w, gGhost, hnp, hreq]; split <;> split <;> simp <;> omega
-      · simp [w, gGhost, hasg]
-      · simp [w, gGhost, hasg]
+      exact mid_cast hB (by omega) (by omega) (by omega) (by omega)
     simp only [Bool.false_eq_true, if_false]
     split
     · exact assign_good hgB hnn hqB (by simpa [hmaxA] using hmax) heB (by simpa [gGhost] using hasg) rfl rfl
